@@ -371,8 +371,12 @@ pub enum Policy {
     /// C12: run the other threads for `after` steps (randomly), then run `reader` alone until it
     /// finishes; it must never be disabled while it runs alone
     /// run everything at random for `start` steps, then suspend `reader` (possibly in the middle of
-    /// its operation) until step `after` or until nobody else can run, then run `reader` alone
-    Solo { reader: usize, start: usize, after: usize },
+    /// its operation) until step `after` or until nobody else can run, then run `reader` alone.
+    /// `freeze`: (thread, k): that thread is suspended for good after `k` steps of its own - a
+    /// writer stopped while it holds a bin lock or restructures a tree, another reader stopped
+    /// while it holds a tree bin's read lock (so that a later writer parks behind it) - and is
+    /// released only after `reader` has finished
+    Solo { reader: usize, start: usize, after: usize, freeze: Vec<(usize, usize)> },
     /// a scripted schedule (regression scenarios): run the named thread until a condition on its
     /// next pending access or on the accesses it has performed holds; afterwards round robin
     Script(Vec<ScriptStep>),
@@ -446,6 +450,7 @@ pub fn drive(s: &Arc<Sched>, policy: &Policy, rng: &mut crate::types::Rng, budge
     // steps spent in the current script step: a step whose thread only spins (it waits for a
     // thread the script holds back) is abandoned after a while
     let mut script_spent = 0usize;
+    let mut own: Vec<usize> = vec![0; n];
     loop {
         let unfinished = s.unfinished();
         if unfinished.is_empty() {
@@ -475,8 +480,9 @@ pub fn drive(s: &Arc<Sched>, policy: &Policy, rng: &mut crate::types::Rng, budge
             rr += 1;
             en[rr % en.len()]
         } else { match policy {
-            Policy::Solo { reader, start, after } => {
-                let others: Vec<usize> = en.iter().copied().filter(|t| t != reader).collect();
+            Policy::Solo { reader, start, after, freeze } => {
+                let frozen = |t: usize| !solo_done && freeze.iter().any(|(ft, k)| *ft == t && own[t] >= *k);
+                let others: Vec<usize> = en.iter().copied().filter(|t| t != reader && !frozen(*t)).collect();
                 let reader_unfinished = unfinished.contains(reader);
                 if steps < *start && !solo_done && solo_steps.is_none() {
                     en[rng.below(en.len() as u64) as usize]
@@ -566,6 +572,7 @@ pub fn drive(s: &Arc<Sched>, policy: &Policy, rng: &mut crate::types::Rng, budge
             }
         }
         schedule.push(pick);
+        own[pick] += 1;
         steps += 1;
     }
 }
